@@ -115,9 +115,11 @@ def part_R(run):
     for qname in ("qint8", "qfloat8_e4m3fn", "qfloat8_e5m2"):
         for axis in (None, 0, -1):
             for rank in (1, 2, 3, 4):
-                for entry in ("quantizer", "activation", "quantizer-expanded-input"):
-                    if entry == "activation" and axis is not None:
+                for entry in ("quantizer", "activation", "quantizer-expanded-input", "activation-mixed-dtypes"):
+                    if entry.startswith("activation") and axis is not None:
                         continue
+                    if entry == "activation-mixed-dtypes" and rank != 2:
+                        continue   # float16 activations quantized with a float32 scale (scales calibrated in another precision)
                     if entry == "quantizer-expanded-input" and not (rank == 2 and axis is None):
                         continue   # "all shapes and strides": a broadcast (stride 0) source tensor
                     inst = {"qtype": qname, "axis": axis, "rank": rank, "entry": entry, "algebra": "R"}
@@ -131,7 +133,7 @@ def part_R(run):
                     def setup(E2, ds=ds, dpos=dpos, axis=axis, qt=qt, entry=entry):
                         for c in dpos:
                             E2.assume(c)
-                        x = new_input(E2, "X", "float32", ds)
+                        x = new_input(E2, "X", "float32" if entry != "activation-mixed-dtypes" else "float16", ds)
                         if entry == "quantizer-expanded-input":
                             # X[i, j] := C[i, 0] broadcast along the last dimension (the element function is the column's)
                             from qvc.tm_index import expand_to
@@ -173,7 +175,7 @@ def part_R(run):
                         sg = sgiven_f(*jds) if (sshape and len(jds) == len(sshape)) else (sgiven_f if not sshape else None)
                         if sg is not None:
                             fs = E.drain()
-                            run.add(f"C01/result-carries-the-given-scale[{tag}]/path{pi}", r.hyps + jnb + fs + [sg > 0], z3.And(lib.shape_eq(scale.shape, sshape), scale.elem(jds) == sg), "property", inst,
+                            run.add(f"C01/result-carries-the-given-scale[{tag}]/path{pi}", r.hyps + jnb + fs + [sg > 0], z3.And(lib.shape_eq(scale.shape, sshape), scale.elem(jds) == sg, z3.BoolVal(scale.dtype == "float32")), "property", inst,
                                     replay=lambda m, sd, qn=qname, ax=axis, rk=rank, en=entry: replay_given_scale(m, sd, qn, ax, rk, en))
                         y = x / s
                         code = data.elem(ids)
@@ -574,9 +576,9 @@ def replay_given_scale(model, seed, qname, axis, rank, entry):
     for dt in (torch.float32, torch.float16, torch.bfloat16):
         fi = torch.finfo(dt)
         for sv in (0.37, fi.tiny / 8, fi.tiny * fi.eps * 4, fi.max / 1024):
-            x = torch.randn(shape).to(dt)
+            x = torch.randn(shape).to(dt if entry != "activation-mixed-dtypes" else torch.float16)
             if axis is None:
-                sc = torch.tensor(sv, dtype=dt)
+                sc = torch.tensor(sv if entry != "activation-mixed-dtypes" else 2.0 ** -20 * 1.37, dtype=dt)
             else:
                 ss = [1] * rank
                 ss[axis % rank] = shape[axis % rank]
@@ -584,10 +586,10 @@ def replay_given_scale(model, seed, qname, axis, rank, entry):
             if not (sc > 0).all() or not torch.isfinite(sc).all():
                 continue
             try:
-                q = quantize_activation(x, qtypes[qname], sc) if entry == "activation" else SymmetricQuantizer.apply(x, qtypes[qname], axis, sc)
+                q = quantize_activation(x, qtypes[qname], sc) if entry.startswith("activation") else SymmetricQuantizer.apply(x, qtypes[qname], axis, sc)
             except ValueError:
                 continue
-            if tuple(q._scale.shape) != tuple(sc.shape) or not torch.equal(q._scale, sc):
+            if tuple(q._scale.shape) != tuple(sc.shape) or q._scale.dtype != sc.dtype or not torch.equal(q._scale, sc):
                 return {"what": "the quantized tensor does not carry the scale it was given", "given": sc.flatten()[0].item(), "carried": q._scale.flatten()[0].item(),
                         "dtype": str(dt), "qtype": qname, "entry": entry}
     return None
